@@ -90,7 +90,7 @@ OUTPUTTYPES = {
     "PartitionAndSumsTuple": out.PartitionAndSumsTuple, "PartitionAndSums": out.PartitionAndSums,
 }
 
-FORMATS = ("list", "array", "dict_str", "dict_int", "names", "names_rep", "array_names")
+FORMATS = ("list", "array", "dict_str", "dict_int", "dict_idx", "names", "names_rep", "array_names")
 
 
 class NamedValues(dict):
@@ -163,6 +163,11 @@ def present(values, fmt):
         d = NamedValues(zip(nm, values))
         d.names_list = list(nm)
         return np.array(nm, dtype=np.int64), (lambda x, d=d: d[int(x)]), d
+    if fmt == "dict_idx":
+        # names are the small integers 0..n-1 (as in dict(enumerate(sizes))), largest value = name 0: names look like values
+        nm = [n - 1000 for n in names_for(values, "int")]
+        d = dict(zip(nm, values))
+        return d, None, d
     kind = "int" if fmt == "dict_int" else "str"
     nm = names_for(values, kind)
     d = dict(zip(nm, values))
